@@ -4,6 +4,8 @@
 From Coq Require Import Extraction ExtrOcamlBasic ExtrOcamlString.
 From MambaModel Require Import model.PyExpr model.CoreExpr gen.PrinterTable.
 From MambaModel Require Import model.LexTok gen.LexTables model.Lex.
+From MambaModel Require Import model.Core gen.Names model.Convert.
 Extraction Language OCaml.
 Extraction "model.ml" ptoks as_py py_parse pexp wf generated canon table_ok
-  tokenize spell synthetic.
+  tokenize spell synthetic
+  gen.
